@@ -10,8 +10,12 @@ Monitors:
        trace must equal them;
  (iii) session isolation: the kernel under test is run as a session before, after and after-again a random
        sequence of other sessions (other kernels and trace sets, same prefix, other flush thresholds,
-       sessions abandoned by an exception, projection sessions that match ranks of the kernel under test);
+       sessions abandoned by an exception, projection sessions that match ranks of the kernel under test,
+       sessions with consumable in-memory traces - consumed, or left unconsumed and therefore never closed);
        its dump and its trace files must be identical every time.
+The generated loop nests reach their output by populate or by direct reference (getPayloadRef in the loop body of
+each output rank), and their operands are fresh, written by an earlier populate kernel, or already read by an
+earlier kernel run (a run that raises only with collection off, or only on, is a difference in results).
 Besides the generated loop nests, hand-written kernels in the library's other idioms go through the same three
 monitors: projection-driven convolutions, n-ary co-iteration, kernels that hand a whole rank to one fiber-level
 operator (`a_k * b_k`, `a_k + b_k`, `a_k += b_k`, `a_k *= s` ...; the operations executed are counted from the raw
@@ -33,10 +37,16 @@ from fvmon.taps import OpCounter
 
 SPEC = {
     "anchors": ["fibertree.core.metrics:Metrics.beginCollect", "fibertree.core.metrics:Metrics.endCollect", "fibertree.core.metrics:Metrics.incCount", "fibertree.core.metrics:Metrics.registerRank", "fibertree.core.metrics:Metrics.trace", "fibertree.core.payload:Payload.__mul__", "fibertree.core.payload:Payload.__iadd__", "fibertree.core.iterators:iterRange", "fibertree.core.iterators:__and__", "fibertree.core.iterators:__lshift__", "fibertree.model.compute:Compute.numOps", "fibertree.model.compute:Compute.numIters",
-                "fibertree.core.fiber:Fiber.__mul__", "fibertree.core.fiber:Fiber.__add__", "fibertree.core.fiber:Fiber.__iadd__", "fibertree.core.fiber:Fiber.getPayload"],
+                "fibertree.core.fiber:Fiber.__mul__", "fibertree.core.fiber:Fiber.__add__", "fibertree.core.fiber:Fiber.__iadd__", "fibertree.core.fiber:Fiber.getPayload",
+                "fibertree.core.fiber:Fiber.getPayloadRef", "fibertree.core.iterators:intersection", "fibertree.core.metrics:Metrics.consumeTrace"],
     "rule": ("case = one kernel from the C06 family (random operand values incl. empty operands, optional tiling, "
              "either intersection style, any loop order) + a subset of (rank, trace type) registrations + a sequence "
-             "of 0-4 earlier sessions of 5 kinds.  Non-trivial = the kernel executes at least 2 leaf bodies with "
+             "of 0-4 earlier sessions of 7 kinds (other kernels and trace sets, abandoned sessions, projection sessions, sessions "
+             "with consumable in-memory traces that were consumed and closed / not consumed so that endCollect() refused / never "
+             "closed).  The kernel reaches its output by populate (z << ...) or, for a quarter of the kernels, by direct reference "
+             "(z_x.getPayloadRef(coord) in the body of the loop over each output rank).  Each operand is built from its values, "
+             "or written by an earlier populate kernel, or already read by an earlier run of the kernel (operand histories, "
+             "applied before the session opens, identically for the run without collection).  Non-trivial = the kernel executes at least 2 leaf bodies with "
              "collection on and at least one rank is traced; distinct = distinct case.  Plus hand-written kernels of the same "
              "Einsum family in the library's other idioms: (a) projection-driven and (b) n-ary co-iteration kernels, (c) kernels "
              "whose innermost rank is handled by one fiber-level operator per row (fiber * fiber, fiber + fiber, fiber *= fiber, "
@@ -51,7 +61,9 @@ SPEC = {
     "min_counts": {"quick": {"evaluations": 150, "differential_runs": 150, "op_executions_tapped": 1000,
                              "numiters_checked": 150, "isolation_sessions": 200, "dump_compares": 300, "kept_reports_checked": 100, "conv_runs": 60,
                              "nary_runs": 60, "conv_runs_with_prebuilt_projections": 20, "fiberop_runs": 60,
-                             "fiberop_elementwise_ops": 400, "lookup_runs": 60, "lookup_kernel_ops": 400}},
+                             "fiberop_elementwise_ops": 400, "lookup_runs": 60, "lookup_kernel_ops": 400,
+                             "output_by_reference_runs": 40, "operand_history_runs": 120, "operand_history_runs_leader_follower": 30,
+                             "consumable_sessions": 50, "consumable_sessions_left_open": 30}},
     "assumptions": [
         "num_cached_uses is configuration, not session state: it is set to the same value before every run of the kernel under test",
         "counting rule for adds follows the documented choice: an accumulate into a zero-valued box is an update, not an add",
@@ -59,6 +71,8 @@ SPEC = {
         "a loop level driven directly by the dense (shape) iterator of a single uncompressed-format operand emits no iter rows (iterRangeShape never calls addUse); such levels are excluded from the iteration-count clause",
         "likewise the Q loop of the lookup kernels (iterShapeRef) and the rank handled by a fiber-level operator (iterated implicitly inside the operator as well) are excluded from the iteration-count clause; the outer ranks of those kernels are not",
         "fiber *= fiber also empties the left operand's elements outside the intersection; whether emptying is a counted update is not fixed by the statement, so for that form only the multiply and add counts are compared",
+        "a kernel that raises with collection off but completes with collection on (or the reverse) counts as producing different results",
+        "a session with an unconsumed consumable trace stays open when its endCollect() refuses (documented assertion); the next beginCollect() must still start clean",
         "fiber-with-scalar value-returning operators (fiber * s, s + fiber, ...) are not generated: they compute on unboxed values, so nothing they do is a payload operation (observed, not claimed; see FIBER_FORMS_GUARDED)",
     ],
 }
@@ -91,13 +105,23 @@ def generate(rng, tier, shard, nshards, mon):
             # three or four operands co-iterated on one rank, as nested `&`, as one flat Fiber.intersection(...), or leader-follower
             spec = kernels.rand_spec(rng, family=rng.choice(kernels.FAMILIES3), tiles=False)
             spec["style"] = rng.choice(["two-finger", "two-finger", "leader-follower"])
+            hist = {name: rng.choice(OPERAND_HISTORIES[1:]) for name, _ in spec["ops"] if rng.random() < 0.45}
+            if hist:
+                spec["ophist"] = hist
             yield {"kind": "nary", "spec": spec, "flat": rng.random() < 0.6, "ncu": rng.choice([2, 1000]),
                    "traces": [[kernels.rid(v), "iter"] for v in spec["order"] if rng.random() < 0.5]}
             continue
         spec = kernels.rand_spec(rng, tiles=True)
         lv = spec["order"]
+        # the output reached by direct reference (z_m.getPayloadRef(m) in the loop over M) instead of populate
+        if spec["out"] and rng.random() < 0.25:
+            spec["zref"] = True
+        # operands with a history: produced by an earlier (populate) kernel, or already used by an earlier kernel
+        hist = {name: rng.choice(OPERAND_HISTORIES[1:]) for name, _ in spec["ops"] if rng.random() < 0.45}
+        if hist:
+            spec["ophist"] = hist
         # uncompressed-format ranks (zero-valued operands reach the body) and a pre-populated, dirty output
-        if rng.random() < 0.5:
+        if not spec.get("zref") and rng.random() < 0.5:
             fm = []
             for name, idx in spec["ops"] + [["Z", spec["out"]]]:
                 for x in kernels.loop_vars_of(idx, spec):
@@ -126,9 +150,9 @@ def generate(rng, tier, shard, nshards, mon):
                     traces.append([kernels.rid(v), tt])
         earlier = []
         for _ in range(rng.choice([0, 1, 2, 2, 3, 4])):
-            kind = rng.choice(["kernel", "kernel-same-traces", "abandoned", "project", "project-abandoned", "threshold"])
+            kind = rng.choice(EARLIER_KINDS)
             e = {"kind": kind, "seed": rng.randrange(1 << 20)}
-            if kind.startswith("kernel") or kind in ("abandoned", "threshold"):
+            if kind.startswith("kernel") or kind in ("abandoned", "threshold", "consumable"):
                 e["spec"] = kernels.rand_spec(random.Random(e["seed"]), tiles=False)
             if kind.startswith("project"):
                 ranks = [kernels.rid(v) for v in lv]
@@ -141,6 +165,12 @@ def generate(rng, tier, shard, nshards, mon):
 
 
 VALS = [1, 2, 3, -1, -2, 4]
+# kinds of earlier sessions ("consumable": in-memory traces registered with consumable=True; the session consumed them and
+# closed, or did not consume them - its endCollect() then refuses, as documented, and the session stays open - or was never closed)
+EARLIER_KINDS = ["kernel", "kernel-same-traces", "abandoned", "project", "project-abandoned", "threshold", "consumable"]
+# where an operand tensor comes from: built from its values, written by an earlier populate kernel (its fibers carry the
+# search positions that kernel left), or already read by an earlier run of a kernel (collection off)
+OPERAND_HISTORIES = ["fresh", "produced", "produced", "used"]
 # fiber-level operator forms (the element-wise loop is implicit, executed inside the library on the kernel's behalf)
 FIBER_FORMS = ["mul", "mul", "add", "imul", "iadd", "imul-scalar", "iadd-scalar"]
 # Observed, not claimed (DESIGN 12.3): `fiber * scalar`, `scalar * fiber`, `fiber + scalar`, `scalar + fiber` compute on the
@@ -230,6 +260,119 @@ class _Bodies(kernels.Observer):
                 self.tally["payload_add"] += 1
 
 
+def _produced(t):
+    """The same tensor written by a producer kernel:  T'[...] = T[...]  populated rank by rank with `<<`."""
+    ids = t.getRankIds()
+    out = Tensor(rank_ids=list(ids), shape=list(t.getShape()), name=t.getName())
+
+    def copy(o_f, s_f, d):
+        for _, (o_ref, s_val) in o_f << s_f:
+            if d == len(ids) - 1:
+                o_ref += s_val
+            else:
+                copy(o_ref, s_val, d + 1)
+    copy(out.getRoot(), t.getRoot(), 0)
+    return out
+
+
+def _build(spec):
+    """kernels.build + the operands' histories (spec["ophist"]: operand name -> "produced" | "used")."""
+    hist = spec.get("ophist") or {}
+    if not hist:
+        return kernels.build(spec, zinit=spec.get("zinit"))
+    tensors, Z, lvars, zl = kernels.build(spec, fmts=[], zinit=spec.get("zinit"))
+    for name, how in hist.items():
+        if how == "produced":
+            tensors[name] = _produced(tensors[name])
+    want = {(n, r) for n, r in spec.get("fmts") or []}
+    for name, t in list(tensors.items()) + [("Z", Z)]:
+        for r in t.getRankIds():
+            if (name, r) in want:
+                t.setFormat(r, "U")
+    if "used" in hist.values():
+        # an earlier run of the same kernel read the operands (into an output of its own)
+        z_scratch = Tensor(rank_ids=list(Z.getRankIds()), shape=list(Z.getShape()), name="Z")
+        _execute(spec, tensors, z_scratch, lvars, zl)
+    return tensors, Z, lvars, zl
+
+
+def _execute(spec, tensors, Z, lvars, zl, observer=None, nested_and=True):
+    if spec.get("zref"):
+        return _exec_zref(spec, tensors, Z, lvars, zl, observer)
+    return kernels.execute(spec, tensors, Z, lvars, zl, observer=observer, nested_and=nested_and)
+
+
+def _exec_zref(spec, tensors, Z, lvars, zl, observer=None):
+    """The loop nest of kernels.execute with the output reached by direct reference: the loops co-iterate the operands
+    only, and in the body of the loop over an output rank the kernel fetches  z_ref = z_x.getPayloadRef(coord)."""
+    order, style = spec["order"], spec["style"]
+    names = [n for n, _ in spec["ops"]]
+    obs = observer or kernels.Observer()
+    count = [0]
+
+    def level(d, cur, zcur, point):
+        if d == len(order):
+            vals = [cur[n] for n in names]
+            prod = vals[0]
+            for x in vals[1:]:
+                prod = prod * x
+            updated = False
+            old = Payload.get(zcur)
+            if style != "leader-follower" or Payload.get(prod) != 0:
+                zcur += prod
+                updated = True
+            count[0] += 1
+            obs.leaf(point, vals, prod, updated, old)
+            return
+        v = order[d]
+        part = [n for n in names if v in lvars[n]]
+        fibers = [cur[n] for n in part]
+        assert len(fibers) <= 2
+        if len(fibers) == 1:
+            co = fibers[0]
+        elif style == "leader-follower":
+            co = Fiber.intersection(*fibers, style="leader-follower")
+        else:
+            co = fibers[0] & fibers[1]
+        for c, p in co:
+            obs.body(d, v, c, point + [c])
+            z_ref = zcur.getPayloadRef(c) if v in zl else zcur
+            nxt = dict(cur)
+            for n, val in zip(part, [p] if len(fibers) == 1 else list(Payload.get(p))):
+                nxt[n] = val
+            level(d + 1, nxt, z_ref, point + [c])
+
+    level(0, {n: tensors[n].getRoot() for n in names}, Z.getRoot(), [])
+    return count[0]
+
+
+def _consumable_session(e, prefix):
+    """An earlier session that keeps traces in memory (consumable=True).  seed % 3: 0 - did not consume them, so its
+    endCollect() refused (documented AssertionError) and the session stays open; 1 - never closed; 2 - consumed, closed."""
+    spec = e["spec"]
+    r2 = random.Random(e["seed"])
+    tensors, Z, lvars, zl = kernels.build(spec)
+    Metrics.beginCollect(prefix)
+    regs = []
+    for v in spec["order"]:
+        tt = r2.choice(TRACE_TYPES[:3])
+        if r2.random() < 0.4:
+            Metrics.trace(kernels.rid(v), type_=tt)         # kept in a file as well
+        Metrics.trace(kernels.rid(v), type_=tt, consumable=True)
+        regs.append((kernels.rid(v), tt))
+    kernels.execute(spec, tensors, Z, lvars, zl)
+    how = e["seed"] % 3
+    if how == 2:
+        for r, tt in regs:
+            Metrics.consumeTrace(r, tt)
+        Metrics.endCollect()
+    elif how == 0:
+        try:
+            Metrics.endCollect()
+        except AssertionError:
+            pass
+
+
 def _read_files(prefix):
     d = os.path.dirname(prefix)
     base = os.path.basename(prefix)
@@ -243,7 +386,7 @@ def _read_files(prefix):
 
 def _session(spec, prefix, traces, ncu, tap=None, abandon_after=None):
     """Run one collection session of a kernel.  Returns dict(dump, files, bodies, zsnap, leaves)."""
-    tensors, Z, lvars, zl = kernels.build(spec, zinit=spec.get("zinit"))
+    tensors, Z, lvars, zl = _build(spec)
     obs = _Bodies()
     Metrics.setNumCachedUses(ncu)
     Metrics.beginCollect(prefix)
@@ -263,10 +406,10 @@ def _session(spec, prefix, traces, ncu, tap=None, abandon_after=None):
                     if self_.leaves > abandon_after:
                         raise _Quit()
             try:
-                kernels.execute(spec, tensors, Z, lvars, zl, observer=_Ab())
+                _execute(spec, tensors, Z, lvars, zl, observer=_Ab())
             except _Quit:
                 return None         # session abandoned: no endCollect
-        kernels.execute(spec, tensors, Z, lvars, zl, observer=obs)
+        _execute(spec, tensors, Z, lvars, zl, observer=obs)
     finally:
         if tap is not None:
             tap.active = False
@@ -406,13 +549,20 @@ def _run_nary(case, mon):
     nested = not case["flat"]
     tap = _counter()
     tmp = tempfile.mkdtemp(prefix="fv15n-")
-    what = f"kernel {spec['ops']}->{spec['out']!r} order={spec['order']} style={spec['style']} flat={case['flat']}"
+    what = (f"kernel {spec['ops']}->{spec['out']!r} order={spec['order']} style={spec['style']} flat={case['flat']} "
+            f"operand-histories={spec.get('ophist') or {}}")
     try:
+        off_exc = None
         try:
-            tensors, Z, lvars, zl = kernels.build(spec)
+            tensors, Z, lvars, zl = _build(spec)
             kernels.execute(spec, tensors, Z, lvars, zl, nested_and=nested)
             z_off = kernels.z_content(spec, Z, zl)
-            tensors, Z, lvars, zl = kernels.build(spec)
+        except BaseException as e:      # noqa
+            if isinstance(e, KeyboardInterrupt):
+                raise
+            off_exc = e
+        try:
+            tensors, Z, lvars, zl = _build(spec)
             obs = _Bodies()
             Metrics.setNumCachedUses(case["ncu"])
             Metrics.beginCollect(os.path.join(tmp, "n"))
@@ -431,10 +581,23 @@ def _run_nary(case, mon):
             if isinstance(e, KeyboardInterrupt):
                 raise
             _abort_session()
-            mon.violation(f"kernel-under-collection:raised:{type(e).__name__}:nary", f"{what} raised {type(e).__name__}: {e}")
+            if off_exc is None:
+                mon.violation(f"kernel-under-collection:raised:{type(e).__name__}:nary",
+                              f"{what} runs with collection off but raised {type(e).__name__}: {e} with collection on")
+            else:
+                mon.violation(f"kernel:raised-with-and-without-collection:{type(e).__name__}:nary",
+                              f"{what} raised {type(off_exc).__name__}: {off_exc} with collection off and {type(e).__name__}: {e} with collection on")
+            return
+        if off_exc is not None:
+            mon.violation(f"transparency:raised-only-without-collection:{type(off_exc).__name__}:nary",
+                          f"{what} runs with collection on but raised {type(off_exc).__name__}: {off_exc} with collection off")
             return
         mon.count("nary_runs")
         mon.count("differential_runs")
+        if spec.get("ophist"):
+            mon.count("operand_history_runs")
+            if spec["style"] == "leader-follower":
+                mon.count("operand_history_runs_leader_follower")
         mon.check(z_off == kernels.dense(spec), "nary:result", f"{what}: result {z_off}, dense {kernels.dense(spec)}")
         mon.check(z_on == z_off, "transparency:output-differs", f"{what}: output differs between collection off and on")
         tally = obs.tally
@@ -818,27 +981,47 @@ def run_case(case, mon):
     tmp = tempfile.mkdtemp(prefix="fv15-")
     prefix = os.path.join(tmp, "s")
     try:
+        what = (f"kernel {spec['ops']}->{spec['out']!r} order={spec['order']} style={spec['style']} tiles={spec['tiles']} "
+                f"output-by-reference={bool(spec.get('zref'))} operand-histories={spec.get('ophist') or {}}")
+        off_exc = None
         try:
             # reference: collection off
-            tensors, Z, lvars, zl = kernels.build(spec, zinit=spec.get("zinit"))
             if Metrics.isCollecting():
                 Metrics.endCollect()
-            kernels.execute(spec, tensors, Z, lvars, zl)
+            tensors, Z, lvars, zl = _build(spec)
+            _execute(spec, tensors, Z, lvars, zl)
             z_off = snap_values(Z)
+        except BaseException as e:      # noqa
+            if isinstance(e, KeyboardInterrupt):
+                raise
+            off_exc = e
+        try:
             # (i) + (ii): collection on, tapped
             s0 = _session(spec, prefix, traces, ncu, tap=tap)
         except BaseException as e:      # noqa
             if isinstance(e, KeyboardInterrupt):
                 raise
             _abort_session()
-            mon.violation(f"kernel-under-collection:raised:{type(e).__name__}",
-                          f"kernel {spec['ops']}->{spec['out']!r} order={spec['order']} style={spec['style']} traces={traces} "
-                          f"raised {type(e).__name__}: {e}")
+            if off_exc is None:
+                mon.violation(f"kernel-under-collection:raised:{type(e).__name__}",
+                              f"{what} traces={traces} runs with collection off but raised {type(e).__name__}: {e} with collection on")
+            else:
+                mon.violation(f"kernel:raised-with-and-without-collection:{type(e).__name__}",
+                              f"{what} raised {type(off_exc).__name__}: {off_exc} with collection off and {type(e).__name__}: {e} with collection on")
+            return
+        if off_exc is not None:
+            mon.violation(f"transparency:raised-only-without-collection:{type(off_exc).__name__}",
+                          f"{what} traces={traces} runs with collection on but raised {type(off_exc).__name__}: {off_exc} with collection off")
             return
         mon.count("differential_runs")
+        if spec.get("zref"):
+            mon.count("output_by_reference_runs")
+        if spec.get("ophist"):
+            mon.count("operand_history_runs")
+            if spec["style"] == "leader-follower":
+                mon.count("operand_history_runs_leader_follower")
         mon.check(s0["zsnap"] == z_off, "transparency:output-differs",
-                  f"kernel output differs between collection off and on (traces {traces}); spec {spec['ops']}->{spec['out']!r} "
-                  f"order={spec['order']} style={spec['style']} tiles={spec['tiles']}")
+                  f"kernel output differs between collection off and on (traces {traces}); {what}")
         exp = s0["tally"]           # the operations the kernel itself executed (interpreter's own tally)
         tapped = tap.expected_metrics()
         n_ops = sum(tap.counts.values())
@@ -894,6 +1077,11 @@ def run_case(case, mon):
                     _session(e["spec"], prefix, [], 2)
                 elif k == "abandoned":
                     _session(e["spec"], prefix, [(kernels.rid(v), "iter") for v in e["spec"]["order"]], ncu, abandon_after=e["seed"] % 3)
+                elif k == "consumable":
+                    _consumable_session(e, prefix)
+                    mon.count("consumable_sessions")
+                    if Metrics.isCollecting():
+                        mon.count("consumable_sessions_left_open")
                 elif k == "project":
                     _project_session(e, prefix, False)
                 else:
